@@ -448,7 +448,57 @@ def _tasks(ctx):
     return tasks
 
 
+AMBIGUOUS_NAMES = ["h2o_FCIDUMP.molden", "x.FCIDUMP.extxyz", "FCIDUMP.xyz", "POSCAR.xyz", "POSCAR_x.cube", "CHGCAR.cube",
+                   "LOCPOT.sdf", "AECCAR0.json", "a.cp2k.out", "b.out", "FCIDUMP.cp2k.out", "POSCAR.FCIDUMP", "x.fchk.molden",
+                   "x.molden.input", "x.xyz.pdb", "CHGCAR.fchk", "job.log", "FCIDUMP", "POSCAR", "x.mkl.wfn"]
+
+
+def check_ambiguous_name(name, src, mode):
+    """load_one / load_many of `src`'s content (whole, empty, or cut) under a name that several format modules (or
+    none) recognise, without an explicit format: an object, LoadError or FileFormatError — nothing else."""
+    from iodata import api
+    from iodata.utils import FileFormatError, LoadError
+
+    text = (REPO / "iodata" / "test" / "data" / src).read_text(errors="replace")
+    text = {"whole": text, "empty": "", "cut": text[: len(text) // 2]}[mode]
+    out = []
+    with tempfile.TemporaryDirectory(prefix="c07n-") as tmp:
+        path = os.path.join(tmp, name)
+        with open(path, "w") as fh:
+            fh.write(text)
+        for fn in ("load_one", "load_many"):
+            try:
+                with warnings.catch_warnings():
+                    warnings.simplefilter("ignore")
+                    r = getattr(api, fn)(path)
+                    if fn == "load_many":
+                        for _k, _frame in zip(range(3), r):
+                            pass
+                got = "object"
+            except (LoadError, FileFormatError) as exc:
+                got = type(exc).__name__
+            except Exception as exc:  # noqa: BLE001
+                out.append((f"escape:{type(exc).__name__}:name-derived-format",
+                            f"{fn}({name!r}) with the content of {src} ({mode}) raised {type(exc).__name__}: {exc}"[:300]))
+    return out
+
+
+def search_ambiguous_names(ctx):
+    rng = ctx.rng
+    srcs = ["water.xyz", "FCIDUMP.molpro.h2", "POSCAR.water", "h2o.molden.input", "water_orca.out", "atom_si.cp2k.out",
+            "cubegen_h2o_5points.cube", "water_sto3g_hf_g03.fchk"]
+    srcs = [x for x in srcs if (REPO / "iodata" / "test" / "data" / x).exists()]
+    for name in AMBIGUOUS_NAMES:
+        for src in (srcs if ctx.thorough else rng.sample(srcs, min(3, len(srcs)))):
+            for mode in ("whole", "empty", "cut"):
+                bad = check_ambiguous_name(name, src, mode)
+                ctx.count("search-name", [name, src, mode], "ok" if not bad else "escape")
+                for sig, what in bad:
+                    ctx.fail(sig, what, {"kind": "name", "name": name, "src": src, "mode": mode})
+
+
 def search(ctx):
+    search_ambiguous_names(ctx)
     tasks = _tasks(ctx)
     fmt_of = {f[0]: f[1] for f in _corpus(ctx)}
     # a format whose parser was already shown not to terminate by the reader correspondence (reported there with its
@@ -531,6 +581,8 @@ def replay(ctx, obj):
     inp = obj["input"]
     if inp.get("kind") in ("rdr", "rctor"):
         return rdrs.replay(ctx, obj)
+    if inp.get("kind") == "name":
+        return bool(check_ambiguous_name(inp["name"], inp["src"], inp["mode"]))
     r = _worker(tuple(inp["task"]))
     if r["verdict"] == "timeout":
         return str(obj.get("signature", "")).startswith("does-not-terminate")
